@@ -243,8 +243,9 @@ def option_tuple(rnd, tables):
     elif r < 0.4 and len(tables) > 2:
         o["skipTables"] = sorted(rnd.sample(tables, rnd.randrange(1, min(4, len(tables)))))
     # derived tables whose dump is empty by design (their content is produced when the master table is
-    # compiled) are only meaningful together with the master: loca<-glyf, Gloc<-Glat
-    for derived, master in (("loca", "glyf"), ("Gloc", "Glat")):
+    # compiled) are only meaningful together with the master: loca<-glyf, Gloc<-Glat, and the bitmap locators
+    # (their dump names the glyphs; the data locations are produced when the bitmap data table is compiled)
+    for derived, master in (("loca", "glyf"), ("Gloc", "Glat"), ("EBLC", "EBDT"), ("CBLC", "CBDT"), ("bloc", "bdat")):
         if "tables" in o and derived in o["tables"] and master not in o["tables"] and master in tables:
             o["tables"] = sorted(o["tables"] + [master])
         if "skipTables" in o and master in o["skipTables"] and derived not in o["skipTables"] and derived in tables:
